@@ -180,7 +180,7 @@ def c11_select(shape: int, d: int, o0: bool, o1: bool, o2: bool, o3: bool) -> in
     return verdict(why is None, "c11_select", shape=shape, d=d, o0=opt[0], o1=opt[1], o2=opt[2], o3=opt[3])
 
 
-NDML = 9
+NDML = 11
 
 
 def build_dml(kind, d):
@@ -222,6 +222,15 @@ def build_dml(kind, d):
         multi = True
         q = Q.from_(t).join(u).using("c0").select(col("c1", t, "t", False), col("c2", u, "u", False))
         refs.append(("c0", 0, True))
+    elif kind == 9:  # single-source UPDATE ... RETURNING (PostgreSQL builder)
+        if d != 2:
+            return None
+        q = Q.update(t).set("c9", 1).returning(col("c0", t, "t", False))
+        refs.append(("c9", 0, True))
+    elif kind == 10:  # INSERT ... RETURNING (PostgreSQL builder)
+        if d != 2:
+            return None
+        q = Q.into(t).insert(1).returning(col("c0", t, "t", False))
     else:
         raise AssertionError(kind)
     return q, refs, srcs, multi
@@ -242,7 +251,10 @@ def c11_dml(kind: int, d: int) -> int:
     """
     d = pin(d, 6)
     with _NoTracing():
-        qy, refs, srcs, multi = build_dml(kind, d)
+        built = build_dml(kind, d)
+        if built is None:
+            return SKIP
+        qy, refs, srcs, multi = built
         sql = qy.get_sql(dctx(d))
         why = judge_refs(sql, d, refs, srcs, multi)
         note("sql", sql)
